@@ -26,7 +26,7 @@ TIERS = {
 RULE = ('per run: x random rank 1..4; y in {1+z^2, 2+z/2, 1.5+z+z^2/2} with z of rank 1..3 scaled to max|z|=1 (so y>=1); order 2..5; '
         'mode sizes 1..10; API in {x/y, scalar/y, elementwise_divide plain / preconditioner c / with starting tensor, x/scalar}; eps '
         'fixed by the API (1e-12) or 10^-k, k in 4..11; global torch PRNG seeded per run; primary SVD failures on 25% of runs (at seeded call indices, or at seeded fractions of the measured number of SVD calls so that late calls fail too); '
-        'distinct by (api, order, divisor form, eps decade, scalar kind, fault kind, singleton flag)')
+        '25% of runs are preceded by another division of the same kind and shape in the same process (history independence); distinct by (api, order, divisor form, eps decade, scalar kind, fault kind, singleton flag)')
 ASSUMPTIONS = ['single-threaded BLAS', 'oracle constant C=10: ||q*y-x|| <= 10*eps*||x|| + 2000*u*||x||',
                'divisors are bounded away from zero by construction (y >= 1)']
 REAL = ['TT.__truediv__, TT.__rtruediv__, torchtt.elementwise_divide, _division.amen_divide (working tree)', 'torch']
@@ -73,6 +73,11 @@ def gen_case(rng):
         p['plan'] = {'P': [], 'Q': [], 'all': True, 'kind': 'all'}
     else:
         p['plan'] = None
+    # history dimension: an earlier division of the same kind and shape (other scalar / other numerator) in the same
+    # process; the checked call must not depend on it (process-global caches, reused work lists)
+    p['prelude'] = {'sv': rng.choice([3, -2.0, 0.25, 5]), 'sk': rng.choice(['int', 'float', 't0'])} if rng.random() < 0.25 else None
+    if p['prelude'] and p['prelude']['sk'] == 'int':
+        p['prelude']['sv'] = rng.choice([3, 5, -2])
     return p
 
 
@@ -123,7 +128,7 @@ def build(p):
 
 def family(p):
     return ('wide|' if p.get('zmax', 1.0) > 1 else '') + '%s|d%d|%s|e%d|%s|%s|%s' % (p['api'], len(p['N']), p['yform'], round(-math.log10(p['eps'])), p['sk'] if p['api'] in ('rdiv', 'scalar') else '',
-                                       p['plan']['kind'] if p['plan'] else 'nofault', 's' if 1 in p['N'] else '')
+                                       p['plan']['kind'] if p['plan'] else 'nofault', 's' if 1 in p['N'] else '') + ('|h' if p.get('prelude') else '')
 
 
 def call(p, x, y, start):
@@ -157,6 +162,15 @@ def exec_case(p, res):
             seams.seed_global(p['tseed'])
             return call(p, x, y, start)
         p = dict(p, plan=svdfault.resolve_fractions(p['plan'], _count))
+    if p.get('prelude'):
+        # whatever the earlier call returns or raises is another run's business
+        seams.seed_global(p['tseed'] ^ 0x5a5a5a)
+        try:
+            pp = dict(p, sv=p['prelude']['sv'], sk=p['prelude']['sk'])
+            call(pp, y if api != 'scalar' else x, y, None if start is None else start.clone())
+        except Exception:
+            core.bump(stats, 'history.prelude_raised')
+        core.bump(stats, 'probe.call_with_history')
     seams.seed_global(p['tseed'])
     q, exc, f = svdfault.run_with_plan(lambda: call(p, x, y, start), p['plan'] or {})
     svdfault.branch_stats(f, stats)
@@ -236,6 +250,8 @@ def shrink_candidates(desc):
     p = desc['case']
     if p.get('plan'):
         yield {'case': dict(p, plan=None)}
+    if p.get('prelude'):
+        yield {'case': dict(p, prelude=None)}
     d = len(p['N'])
     if d > 2:
         yield {'case': dict(p, N=p['N'][:-1], Rx=p['Rx'][:-2] + [1], Rz=p['Rz'][:-2] + [1])}
